@@ -13,6 +13,7 @@ records, auxiliaries of different entries interleaved, all entries before all au
 import io
 import os
 import re
+import random
 import struct
 import subprocess
 
@@ -20,14 +21,14 @@ from vf.enc import elf as W
 from vf.choose import RndChooser, composite_from
 
 ID = 'C15'
-RULE = ('Models of .gnu.version_d / .gnu.version_r (0..12 entries x 1..5 auxiliaries, arbitrary u16/u32 field values, '
-        'index assignments with duplicates, gaps, 0 and the hidden bit 0x8000) and .gnu.version over a .dynsym (0..20 named '
+RULE = ('Models of .gnu.version_d / .gnu.version_r (0..12 entries, thorough 0..40, x 1..5 auxiliaries, arbitrary u16/u32 field values, '
+        'index assignments with duplicates, gaps, 0 and the hidden bit 0x8000) and .gnu.version over a .dynsym (0..40 named '
         'symbols, indices incl. 0, 1, 0x8000|n, 0xff00, 0xff01, 0xffff) are encoded by own struct.pack encoders with records '
         'placed in any forward order (dense / padded / all entries first / auxiliary groups in reverse owner order / random '
-        'linear extension with interleaved auxiliaries), padding filled with junk, embedded in an ELF file (both classes, '
+        'linear extension with interleaved auxiliaries), padding 0..64 bytes (thorough up to 4096) filled with junk, embedded in an ELF file (both classes, '
         'both byte orders, permuted section indices and file placement, 2-3 string tables holding the same names at '
         'different offsets so that the linked one matters) and decoded through num_versions / iter_versions / get_version '
-        '(hits, misses, hidden-bit toggles) / has_indexes / num_symbols / get_symbol / iter_symbols; every field, name and '
+        '(hits, misses, hidden-bit toggles) / has_indexes (first called before the walks, after them, or after the queries) / num_symbols / get_symbol / iter_symbols; every field, name and '
         'lookup result is compared with the model. Non-trivial: a definition or requirement section with >= 2 entries and '
         'at least one displacement that differs from the dense layout (so following links and assuming contiguity '
         'differ). Distinct by SHA-1 of encoded file + queries.')
@@ -347,8 +348,8 @@ def check_version_section(ctx, case, kind, sec, exp, loc, queries):
     if type(sec).__name__ != K['cls']:
         ctx.fail('%s|class' % what, 'section object is %s' % type(sec).__name__, case)
         return
-    # has_indexes is memoised: on some cases it is called before anything else on the section object, on others
-    # after all walks, on others twice.  A result obtained before the walk is only judged once the walk is known
+    # has_indexes is memoised: its first call comes before anything else on the section object, after the walks, or
+    # after the get_version queries (hi_mode); a last call always follows the queries and must repeat the first answer.  A result obtained before the walk is only judged once the walk is known
     # to be right (a wrong walk makes has_indexes/get_version wrong as a consequence, not as a separate cause).
     exp_hi = any(a['fields']['vna_other'] != 0 for e in exp for a in e['aux']) if kind == 'need' else None
     hi_calls = []
@@ -359,18 +360,19 @@ def check_version_section(ctx, case, kind, sec, exp, loc, queries):
         except Exception as e:  # noqa
             hi_calls.append((tag, 'exc', e))
 
-    hi_mode = case.get('has_indexes_first') if kind == 'need' else None
-    if hi_mode is True:
+    hi_mode = case.get('hi_mode', 'after-walk') if kind == 'need' else None
+    if hi_mode == 'first':
         call_hi('first-call-before-walks')
     clean = True
+    nv_ok = False
     try:
         n = sec.num_versions()
         if n != len(exp):
             ctx.fail('%s.num_versions' % what, 'sh_info %d reported %r' % (len(exp), n), case)
-            clean = False
+        else:
+            nv_ok = True
     except Exception as e:  # noqa
         ctx.fail_exc('%s.num_versions' % what, e, case)
-        clean = False
 
     # iter_versions, auxiliaries consumed inline or after the outer walk finished
     deferred = case.get('consume') == 'deferred'
@@ -382,7 +384,7 @@ def check_version_section(ctx, case, kind, sec, exp, loc, queries):
         ctx.fail_exc('%s.iter_versions' % what, e, case)
         clean = False
     walk_exc = None
-    while it is not None and clean:
+    while it is not None:
         try:
             ver, aux_it = next(it)
         except StopIteration:
@@ -407,31 +409,17 @@ def check_version_section(ctx, case, kind, sec, exp, loc, queries):
                      'after %d of %d entries' % (len(pairs), len(exp)))
         clean = False
     elif clean and len(pairs) != len(exp):
-        ctx.fail('%s.iter|count' % what, '%d entries encoded, %s yielded' % (
-            len(exp), len(pairs) if len(pairs) <= len(exp) + 2 else 'more'), case)
+        if nv_ok:   # otherwise a consequence of the wrong num_versions() already reported
+            ctx.fail('%s.iter|count' % what, '%d entries encoded, %s yielded' % (
+                len(exp), len(pairs) if len(pairs) <= len(exp) + 2 else 'more'), case)
         clean = False
+    clean = clean and nv_ok
 
-    if kind == 'need':
-        if hi_mode is not True:
-            call_hi('first-call-after-walks')
-        if hi_mode is not None:
-            call_hi('second-call')
+    if hi_mode == 'after-walk':
+        call_hi('first-call-after-walks')
     if not clean:
         ctx.count('skipped.dependent-checks.%s' % kind)
         return
-
-    # has_indexes
-    for k, (tag, st_, r) in enumerate(hi_calls):
-        if st_ == 'exc':
-            ctx.fail_exc('verneed.has_indexes', r, case, tag)
-            break
-        if k == 0:
-            if r is not exp_hi:
-                ctx.fail('verneed.has_indexes|wrong', '%s: expected %r got %r (vna_other values %r)' % (
-                    tag, exp_hi, r, [a['fields']['vna_other'] for e in exp for a in e['aux']][:20]), case)
-            ctx.count('has_indexes.%s' % exp_hi)
-        elif r is not hi_calls[0][2]:
-            ctx.fail('verneed.has_indexes|second-call-differs', '%s %r, %s %r' % (hi_calls[0][0], hi_calls[0][2], tag, r), case)
 
     # get_version
     for q in queries:
@@ -481,6 +469,22 @@ def check_version_section(ctx, case, kind, sec, exp, loc, queries):
         if not match:
             ctx.fail('%s.get_version|hit|wrong-result' % what, 'index %#x is carried by (entry, aux) %r; got entry %r name %r with %r' % (
                 q, [(c, exp[c[0]]['fields']) for c in carriers][:3], gotf, gotn, gota), case)
+
+    if kind != 'need':
+        return
+    call_hi('first-call-after-queries' if hi_mode == 'last' else 'call-after-queries')
+    # has_indexes
+    for k, (tag, st_, r) in enumerate(hi_calls):
+        if st_ == 'exc':
+            ctx.fail_exc('verneed.has_indexes', r, case, tag)
+            break
+        if k == 0:
+            if r is not exp_hi:
+                ctx.fail('verneed.has_indexes|wrong', '%s: expected %r got %r (vna_other values %r)' % (
+                    tag, exp_hi, r, [a['fields']['vna_other'] for e in exp for a in e['aux']][:20]), case)
+            ctx.count('has_indexes.%s' % exp_hi)
+        elif r is not hi_calls[0][2]:
+            ctx.fail('verneed.has_indexes|second-call-differs', '%s %r, %s %r' % (hi_calls[0][0], hi_calls[0][2], tag, r), case)
 
 
 class _Raised:
@@ -663,7 +667,22 @@ PADS = [0, 0, 0, 4, 8, 12, 16, 20, 24, 32, 64]
 IDX_POOL = [0, 1, 2, 3, 4, 5, 6, 7, 0x7fff, 0x8000, 0x8001, 0x8002, 0x8005, 0xff00, 0xff01, 0xffff]
 
 
-def gen_place(ch, counts, mode):
+def perm_of(ch, seq):
+    """Permutation derived deterministically from ONE drawn integer (st.permutations costs a draw per element; the
+    case stores the resulting list, so it stays self-contained)."""
+    lst = list(seq)
+    random.Random(ch.int(0, 0xffffffff)).shuffle(lst)
+    return lst
+
+
+def alt(ch, fixed, rare):
+    """One of the fixed values, or (one time in len+1) the value of rare() - drawn only when needed."""
+    k = ch.int(0, len(fixed))
+    return fixed[k] if k < len(fixed) else rare()
+
+
+def gen_place(ch, counts, mode, pads=None):
+    pads = pads or PADS
     n = len(counts)
     if mode in ('dense', 'padded'):
         seq = [(i, j) for i in range(n) for j in range(-1, counts[i])]
@@ -685,7 +704,7 @@ def gen_place(ch, counts, mode):
                 ready.append((i, j + 1))
     out = []
     for k, (i, j) in enumerate(seq):
-        pad = 0 if (k == 0 or mode == 'dense') else ch.choice(PADS)
+        pad = 0 if (k == 0 or mode == 'dense') else ch.choice(pads)
         out.append([i, j, pad])
     return out
 
@@ -747,11 +766,11 @@ def build_model(ch, tier, force=None):
     cls = F['cls'] if 'cls' in F else ch.choice([32, 64])
     le = F['le'] if 'le' in F else ch.bool()
     npool = ch.int(6, len(NAME_POOL))
-    names = NAME_POOL[:1] + ch.perm(NAME_POOL[1:])[:npool - 1]
+    names = NAME_POOL[:1] + perm_of(ch, NAME_POOL[1:])[:npool - 1]
     nstr = ch.int(2, 3)
     strtabs = []
     for k in range(nstr):
-        strtabs.append({'perm': ch.perm(range(len(names))), 'share': ch.bool(0.4),
+        strtabs.append({'perm': perm_of(ch, range(len(names))), 'share': ch.bool(0.4),
                         'lead': ch.choice([b'', b'', b'x\0', b'lead\0', b'\0\0\0'])})
     full_q = bool(F.get('full_queries'))
     case = {'cls': cls, 'le': le, 'names': names, 'strtabs': strtabs, 'queries': {}}
@@ -763,15 +782,15 @@ def build_model(ch, tier, force=None):
     for kind in ('def', 'need'):
         if kind not in present:
             continue
-        n = F['n'] if 'n' in F else ch.choice([0, 1, 2, 2, 3, 5, ch.int(0, 12)])
-        counts = F['counts'] if 'counts' in F else [ch.choice([1, 1, 2, 3, ch.int(1, 5)]) for _ in range(n)]
+        n = F['n'] if 'n' in F else alt(ch, [0, 1, 2, 2, 3, 5], lambda: ch.int(0, 40 if big else 12))
+        counts = F['counts'] if 'counts' in F else [ch.choice([1, 1, 2, 3, 1, 4, 5]) for _ in range(n)]
         mode = F['mode'] if 'mode' in F else ch.choice(MODES)
         scheme = F['scheme'] if 'scheme' in F else ch.choice(['seq', 'seq2', 'hidden', 'hidden0', 'random', 'random', 'random', 'zero'])
         ents = []
         if kind == 'def':
             ix = gen_indices(ch, n, scheme)
             for i in range(n):
-                ents.append({'version': ch.choice([1, 1, 1, 0, 2, ch.word(16)]), 'flags': ch.choice([0, 0, 1, 2, 3, ch.word(16)]),
+                ents.append({'version': alt(ch, [1, 1, 1, 0, 2], lambda: ch.word(16)), 'flags': alt(ch, [0, 0, 1, 2, 3], lambda: ch.word(16)),
                              'ndx': ix[i], 'hash': ch.word(32), 'aux': [{'name': ch.choice(names)} for _ in range(counts[i])]})
             vals = ix
         else:
@@ -780,21 +799,22 @@ def build_model(ch, tier, force=None):
             for i in range(n):
                 aux = []
                 for _ in range(counts[i]):
-                    aux.append({'hash': ch.word(32), 'flags': ch.choice([0, 0, 2, ch.word(16)]), 'other': ix[k], 'name': ch.choice(names)})
+                    aux.append({'hash': ch.word(32), 'flags': alt(ch, [0, 0, 2], lambda: ch.word(16)), 'other': ix[k], 'name': ch.choice(names)})
                     k += 1
-                ents.append({'version': ch.choice([1, 1, 1, 0, 2, ch.word(16)]), 'file': ch.choice(names), 'aux': aux})
+                ents.append({'version': alt(ch, [1, 1, 1, 0, 2], lambda: ch.word(16)), 'file': ch.choice(names), 'aux': aux})
             vals = ix
-        case[kind] = {'strtab': ch.int(0, nstr - 1), 'entries': ents, 'place': gen_place(ch, counts, mode), 'mode': mode,
-                      'tail': ch.choice([0, 0, 4, 20]), 'fill': ch.choice([0xCC, 0x00, 0xFF, 0x01, ch.int(0, 255)])}
+        case[kind] = {'strtab': ch.int(0, nstr - 1), 'entries': ents, 'place': gen_place(ch, counts, mode, PADS + [0x100, 0x1000] if big else PADS), 'mode': mode,
+                      'tail': ch.choice([0, 0, 4, 20]), 'fill': alt(ch, [0xCC, 0x00, 0xFF, 0x01], lambda: ch.int(0, 255))}
         case['queries'][kind] = gen_queries(ch, vals, full_q)
         roles.append(kind)
-    nsym = F['nsym'] if 'nsym' in F else ch.choice([0, 1, 2, 4, 8, ch.int(0, 20), ch.int(0, 20)])
-    symn = ch.perm(names)
+    nsym = F['nsym'] if 'nsym' in F else (ch.choice([0, 1, 2, 4, 8]) if ch.bool(0.6) else ch.int(0, 20))
+    symn = perm_of(ch, names)
     syms = []
     for k in range(nsym):
         nm = '' if k == 0 else symn[k % len(symn)]
-        syms.append({'name': nm, 'value': ch.word(cls), 'size': ch.word(cls), 'info': ch.choice([0x12, 0x11, 0x10, 0x22, 0]),
-                     'other': ch.int(0, 3), 'shndx': ch.choice([0, 1, 5, 0xfff1])})
+        # the other symbol fields are outside this property (C03): fixed pattern, no draws
+        syms.append({'name': nm, 'value': (0x1000 + 0x10 * k) & W.mask(cls), 'size': k * 3, 'info': (0x12, 0x11, 0x10, 0x22, 0)[k % 5],
+                     'other': k % 4, 'shndx': (0, 1, 5, 0xfff1)[k % 4]})
     case['dynsym'] = {'strtab': ch.int(0, nstr - 1), 'syms': syms}
     if 'versym' in present:
         vs = F.get('versym_scheme', 'random')
@@ -803,17 +823,17 @@ def build_model(ch, tier, force=None):
         else:
             nd = [pick_index(ch) for _ in range(nsym)]
         case['versym'] = {'ndx': nd}
-        case['sym_query_order'] = ch.perm(range(nsym)) if ch.bool(0.5) else None
+        case['sym_query_order'] = perm_of(ch, range(nsym)) if ch.bool(0.5) else None
         roles.append('versym')
     if ch.bool(0.5):
         roles.append('junk')
         case['junk'] = ch.bytes(0, 40)
-    case['sec_order'] = ch.perm(roles)
+    case['sec_order'] = perm_of(ch, roles)
     case['consume'] = F['consume'] if 'consume' in F else ch.choice(['inline', 'deferred'])
-    case['has_indexes_first'] = ch.choice([True, False, None])
+    case['hi_mode'] = ch.choice(['first', 'after-walk', 'last'])
     # file placement
     chunks = list(range(1, len(roles) + 1)) + ['sh']
-    case['order'] = ch.perm(chunks) if ch.bool(0.6) else None
+    case['order'] = perm_of(ch, chunks) if ch.bool(0.6) else None
     case['gaps'] = {str(c): ch.choice([0, 1, 3, 8, 17]) for c in chunks if ch.bool(0.3)}
     case['tail'] = ch.choice([0, 0, 5, 64])
     case['e_machine'] = ch.choice([62, 3, 40, 183, 8, 20])
